@@ -9,7 +9,10 @@
    carrier each.  Decisions the C++ takes from data that is not part of the
    solid are oracles (Section variables):
      uniq  - the answer of  op_node.use_count() <= 2 && impl_.UseCount() == 1
-             at the tick-th evaluation of that test, for node id;
+             for node id, as a function of the whole heap at that moment (the heap
+             contains the tick = number of questions asked so far, so any sequence
+             of answers is such a function); uniq_rc below DERIVES the answer from
+             the heap and the live handles by counting shared_ptr owners;
      ovl   - Box::DoesOverlap of the two leaves' GetBoundingBox();
      sz    - CsgLeafNode::NumVert() (MeshCompare);
      kmax  - kMaxUnionSize (1000 in the pinned source; read by the check).
@@ -17,10 +20,12 @@
    push_back through a null destination, a dangling handle, a loop that does
    not stop within its fuel) is None.
    Not modelled: ExecutionContext (ctx = nullptr: no cancellation, no progress
-   counters - that is property C15), error Status short-cuts, meshIDs,
-   reference-count driven destruction (~CsgOpNode only empties cells no live
-   node can reach; HDrop just forgets the handle). *)
-From Coq Require Import List ZArith Bool Arith.
+   counters - that is property C15) and meshIDs.  Error Status is handled by
+   lifting the carrier (CsgStatusDefs.v).  Destruction: a node is dead when it
+   is not reachable from a live handle ([alive]); ~CsgOpNode only empties
+   children vectors no live node can reach, so HDrop just forgets the handle
+   and uniq_rc counts owners among the live nodes. *)
+From Coq Require Import List ZArith Bool Arith PeanoNat.
 Import ListNotations.
 
 Inductive op := Add | Sub | Int.          (* OpType::Add, Subtract, Intersect *)
@@ -39,6 +44,7 @@ Record CsgOps := mkCsgOps {
   diff : sol -> sol -> sol;                (* Boolean3(a,b,Subtract).Result *)
   empty : sol;                             (* Manifold::Impl() *)
   compose : list sol -> sol;               (* CsgLeafNode::Compose: juxtaposition of the meshes *)
+  dj : sol -> sol -> Prop;                 (* "may be juxtaposed": the two solids share no interior point (spec only, erased) *)
   mone : tr;                               (* la::identity *)
   mmul : tr -> tr -> tr;                   (* m * Mat4(n) *)
   m_is_one : tr -> bool;                   (* transform_ == mat3x4(la::identity) *)
@@ -54,8 +60,23 @@ Fixpoint set_nth {A} (l : list A) (i : nat) (x : A) : list A :=
 
 Section Model.
   Variable A : CsgOps.
-  Variable uniq : nat -> nat -> bool.
   Let leaf : Type := (sol A * tr A)%type.          (* CsgLeafNode: pImpl_, transform_ *)
+
+  (* ---------------- the heap ---------------- *)
+  Inductive node :=
+  | NLeaf (l : leaf)
+  | NOp (o : op) (t : tr A) (cell : nat) (cache : option nat).
+    (* op_, transform_, impl_ (index of the shared children vector), cache_ (a leaf node) *)
+
+  Record heap := mkHeap {
+    nodes : list node;
+    cells : list (list nat);       (* the vector impl_ points to: children (node ids) or the single untransformed result *)
+    tick : nat                     (* number of use_count questions asked so far *)
+  }.
+
+  Definition get_node (h : heap) (id : nat) : option node := nth_error (nodes h) id.
+
+  Variable uniq : heap -> nat -> bool.
   Variable ovl : leaf -> leaf -> bool.
   Variable sz : leaf -> Z.
   Variable kmax : nat.
@@ -194,20 +215,6 @@ Section Model.
       end
     end.
 
-  (* ---------------- the heap ---------------- *)
-  Inductive node :=
-  | NLeaf (l : leaf)
-  | NOp (o : op) (t : tr A) (cell : nat) (cache : option nat).
-    (* op_, transform_, impl_ (index of the shared children vector), cache_ (a leaf node) *)
-
-  Record heap := mkHeap {
-    nodes : list node;
-    cells : list (list nat);       (* the vector impl_ points to: children (node ids) or the single untransformed result *)
-    tick : nat                     (* number of use_count questions asked so far *)
-  }.
-
-  Definition get_node (h : heap) (id : nat) : option node := nth_error (nodes h) id.
-
   (* if (!cache_) { impl = {result}; cache_ = impl[0]->Transform(transform_) }
      returns the heap and the leaf cache_ points to *)
   Definition finalize (h : heap) (id : nat) (P N : list leaf) : option (heap * leaf) :=
@@ -252,11 +259,49 @@ Section Model.
       end
     end.
 
+  (* ---------------- reference counts ---------------- *)
+  (* shared_ptr owners of a node: Manifold handles, children vectors of LIVE cells, cache_ of live nodes (leaves only),
+     stack frames.  Without cycles "live" = reachable from the handles (the node being forced is a handle). *)
+  Definition succs (h : heap) (x : nat) : list nat :=
+    match get_node h x with
+    | Some (NOp _ _ c ca) => nth c (cells h) [] ++ match ca with Some k => [k] | None => [] end
+    | _ => []
+    end.
+  Fixpoint reach (fuel : nat) (h : heap) (todo seen : list nat) : list nat :=
+    match fuel with
+    | O => seen
+    | S f =>
+      match todo with
+      | [] => seen
+      | x :: r => if existsb (Nat.eqb x) seen then reach f h r seen
+                  else reach f h (succs h x ++ r) (x :: seen)
+      end
+    end.
+  Definition handle_ids (hs : list (option nat)) : list nat :=
+    flat_map (fun o => match o with Some id => [id] | None => [] end) hs.
+  Definition alive (h : heap) (hs : list (option nat)) : list nat :=
+    reach (S (length (nodes h)) * S (length (nodes h) + length (concat (cells h)) + length hs)) h (handle_ids hs) [].
+  Definition cell_of (h : heap) (x : nat) : option nat :=
+    match get_node h x with Some (NOp _ _ c _) => Some c | _ => None end.
+  Definition live_cells (h : heap) (al : list nat) : list nat :=
+    nodup Nat.eq_dec (flat_map (fun x => match cell_of h x with Some c => [c] | None => [] end) al).
+  Definition child_refs (h : heap) (al : list nat) (id : nat) : nat :=
+    list_sum (map (fun c => count_occ Nat.eq_dec (nth c (cells h) []) id) (live_cells h al)).
+  Definition cell_owners (h : heap) (al : list nat) (c : nat) : nat :=
+    length (filter (fun x => match cell_of h x with Some c' => Nat.eqb c' c | None => false end) al).
+  (* op_node.use_count() <= 2 && impl_.UseCount() == 1, the frame asking being one of the two owners: no handle,
+     at most one live children vector entry (a second frame for the same node needs a second entry), and no other
+     live node sharing the children vector *)
+  Definition uniq_rc (hs : list (option nat)) (h : heap) (id : nat) : bool :=
+    let al := alive h hs in
+    Nat.eqb (count_occ Nat.eq_dec (handle_ids hs) id) 0 && Nat.leb (child_refs h al id) 1 &&
+    match cell_of h id with Some c => Nat.leb (cell_owners h al c) 1 | None => false end.
+
   (* canCollapse; asks the use_count question only where C++'s && / || evaluate it *)
   Definition can_collapse (h : heap) (id : nat) (o pop : op) (has1 : bool) (ncell : nat)
     : bool * heap :=
     if has1 && op_eqb o pop then
-      let u := uniq (tick h) id in
+      let u := uniq h id in
       (u || Nat.eqb ncell 1, mkHeap (nodes h) (cells h) (S (tick h)))
     else (has1 && Nat.eqb ncell 1, h).
 
@@ -533,3 +578,18 @@ Section Model.
     end.
 
 End Model.
+
+(* histories where every use_count answer is derived from the heap and the live handles *)
+Definition do_hop_rc (A : CsgOps) (ovl : (sol A * tr A) -> (sol A * tr A) -> bool) (sz : (sol A * tr A) -> Z)
+           (kmax fuel : nat) (stack_version : bool) (s : state A) (x : hop A) : option (state A) :=
+  do_hop A (uniq_rc A (st_handles A s)) ovl sz kmax fuel stack_version s x.
+
+Fixpoint do_hops_rc (A : CsgOps) (ovl : (sol A * tr A) -> (sol A * tr A) -> bool) (sz : (sol A * tr A) -> Z)
+         (kmax fuel : nat) (stack_version : bool) (s : state A) (l : list (hop A)) : option (state A) :=
+  match l with
+  | [] => Some s
+  | x :: r => match do_hop_rc A ovl sz kmax fuel stack_version s x with
+              | None => None
+              | Some s' => do_hops_rc A ovl sz kmax fuel stack_version s' r
+              end
+  end.
